@@ -1,5 +1,5 @@
 (* C14 -- cyclic models are rejected, never silently skipped. *)
-From Coq Require Import List Arith Bool.
+From Coq Require Import List Arith Bool Permutation.
 From MP Require Import Model.Sched Proofs.SchedProofs Proofs.SchedTop Proofs.SchedBlame.
 Import ListNotations.
 
@@ -25,6 +25,16 @@ Theorem C14_names_a_command : forall (V : Type) (F : cmd -> list V -> V) P fuel 
   run_program F fuel P s = ErrRecursive n /\ In n (names P).
 Proof. intros V F P fuel s n H M. split; [unfold run_program; rewrite M, H; reflexivity | exact (reported_is_a_command P n H)]. Qed.
 
+(* whether a program is rejected depends on its reference graph only, never on the textual order of its commands:
+   the pre-pass accepts exactly the programs that have a rank function (an acyclic reference graph) *)
+Theorem C14_accepted_iff_ranked : forall P, NoDup (names P) -> first_missing P P = None ->
+  (find_cycle P = None <-> exists rank, wf_dag P rank).
+Proof. exact accepted_iff_ranked. Qed.
+
+Theorem C14_rejection_is_order_free : forall P P', Permutation P P' -> NoDup (names P) -> first_missing P P = None ->
+  find_cycle P = None -> find_cycle P' = None.
+Proof. exact rejection_order_irrelevant. Qed.
+
 Example C14_example :
   let P := [ {| nm := 0; rl := [(true, 1)] |}; {| nm := 1; rl := [(false, 2)] |}; {| nm := 2; rl := [(true, 1)] |};
              {| nm := 3; rl := [] |} ] in
@@ -36,3 +46,5 @@ Print Assumptions C14.
 Print Assumptions C14_no_partial_success.
 Print Assumptions C14_only_cycles_rejected.
 Print Assumptions C14_names_a_command.
+Print Assumptions C14_accepted_iff_ranked.
+Print Assumptions C14_rejection_is_order_free.
